@@ -142,9 +142,9 @@ func (g *c07Pick) n(name string, min int, with255 bool) int {
 	for i := min; i <= top; i++ {
 		m = append(m, i)
 	}
-	if with255 {
-		m = append(m, 255)
-	}
+	// counts at which a byte-wide product wraps (32*8, 64*4, 128*2) and the largest a one-byte count can hold
+	m = append(m, 31, 32, 64, 128, 255)
+	_ = with255
 	return m[g.next(name, len(m), len(m), func(i int) bool { return m[i] >= 2 })]
 }
 
